@@ -159,14 +159,25 @@ def _spec_error(spec, kind):
 
 
 @rule('R20.o', ('C20', 'C18'), 'the status / capture text is built by '
-      'operations Python accepts for the kinds of their operands', floor=20,
+      'operations Python accepts for the kinds of their operands', floor=8,
       decides='the status and capture pages render without error; the capture '
               'script is produced')
 def r20o(R):
     A = R.A
     mod = A.repo.module(SNAPSHOT)
     n_ops = 0
+    # the generators the web tier builds its pages with, and their bases
+    used = set()
+    for f in A.repo.all_functions('web'):
+        for c in A.calls_in(f):
+            r = A.repo.resolve_expr_static(f.module, c.func)
+            if r in mod.classes.values():
+                used.update(r.mro())
+    if not used:
+        raise AnalysisError('web tier: no snapshot generator is instantiated')
     for cls in mod.classes.values():
+        if cls not in used:
+            continue
         for m in cls.methods.values():
             K = Kinds(A, m)
             bad = []
@@ -223,12 +234,12 @@ def r20o(R):
                        'this statement fails' % why, line=e.lineno)
             if not bad:
                 R.ok(m, 'string operations of %s' % m.short)
-    if n_ops < 20:
+    if n_ops < 8:
         raise AnalysisError('snapshot: only %d string operations found' % n_ops)
 
 
 @rule('R18.f', ('C18', 'C20'), 'an override of a method that prepares the '
-      'object calls the method it overrides', floor=2,
+      'object calls the method it overrides', floor=1,
       decides='the text buffer exists before the first line is appended '
               '(the pages render, the capture script is produced)')
 def r18f(R):
@@ -266,8 +277,8 @@ def r18f(R):
                     'calling it on every path: the attribute keeps the '
                     'constructor\'s None / is missing and the first use '
                     'raises' % (m.short, base.short, ', '.join(sorted(stores))))
-    if seen < 2:
-        raise AnalysisError('snapshot: only %d preparing overrides found' % seen)
+    if seen < 1:
+        raise AnalysisError('snapshot: no preparing override found')
 
 
 # ------------------------------------------------------------------ R06.o
